@@ -266,10 +266,17 @@ LoopsContiguous(vp, anc) ==
         IN \A i, j \in ps : \A m \in (i + 1)..(j - 1) : m \in ps
 
 \* classification of an order violation (for fingerprints)
+PipeOpDeps(v) ==
+    LET D == PipeDeps(v) IN
+    {d \in D : d[1] \in v.ops /\ d[2] \in v.ops}
+    \cup UNION {{<<a[1], b[2]>> : b \in {c \in D : c[1] = a[2] /\ c[2] \in v.ops}} :
+                    a \in {c \in D : c[1] \in v.ops /\ c[2] \in v.hoffs}}
 DepKind(v1, d) ==
     LET ref == d \in RefOpDeps(v1)
+        rc == d \in RefConsumerDeps(v1) /\ d \notin PipeOpDeps(v1)
         intoLoop == v1.nm[d[2]].loop # 0 /\ v1.nm[d[1]].loop # v1.nm[d[2]].loop
-    IN (IF ref THEN "reference" ELSE "pipe") \o (IF intoLoop THEN "-into-loop" ELSE "")
+    IN (IF ref THEN "reference" ELSE IF rc THEN "reference-reader-before-consumer" ELSE "pipe")
+       \o (IF intoLoop THEN "-into-loop" ELSE "")
 
 C18Rules(r) ==
     LET v1 == View(r.G1)
